@@ -89,7 +89,9 @@ impl Function for DecodeCharset {
 fn decode_charset(value: &[u8], from_charset: &[u8]) -> Resolved {
     let decoder = Encoding::for_label(from_charset).ok_or_else(|| create_error(from_charset))?;
 
-    let (output, _, _) = decoder.decode(value);
+    // The charset is named by the caller: no byte-order-mark sniffing (which would silently switch
+    // the encoding and strip bytes that merely look like a BOM).
+    let (output, _) = decoder.decode_without_bom_handling(value);
     Ok(Value::Bytes(output.as_bytes().to_vec().into()))
 }
 
